@@ -154,52 +154,65 @@ structure SaveReq where
 def manifestEquivalent (a b : Manifest) : Bool :=
   a.index == b.index && a.term == b.term && a.data == b.data && a.conf == b.conf
 
+/-- `saveOp.apply`, snapshot part: manifest key, DeleteRange of the compacted prefix,
+    FirstIndex, commit bump, cached tail trim -/
+def applySnap (d : Durable) (c : Cache) (hs : Hard) (s : Snap) (allowReplace : Bool) :
+    Except Err (Durable × Cache × Hard) :=
+  if s.index < c.snapIndex then .error .outOfDate
+  else if s.index = c.snapIndex ∧
+          (match c.manifest with
+           | some man => !manifestEquivalent man s
+           | none => false) = true ∧
+          (allowReplace = false ∨ s.index ≠ c.logMeta.applied) then .error .other
+  else
+    let dEnts := if s.index < maxU64 then d.entries.filter (fun e => ¬ e.index < s.index + 1) else []
+    let first := if s.index < maxU64 then s.index + 1 else maxU64
+    let hs := if hs.commit < s.index then { hs with commit := s.index } else hs
+    let d := { d with manifest := some s, entries := dEnts }
+    let c := { c with snapIndex := s.index, snapTerm := s.term, snapConf := s.conf,
+                      manifest := some s,
+                      entries := (c.entries.filter (fun e => ¬ e.index ≤ s.index)).map stripEntry,
+                      logMeta := { c.logMeta with first := first } }
+    .ok (d, c, hs)
+
+/-- `saveOp.apply`, entries part: FirstIndex repair, suffix DeleteRange only when
+    something can be hidden, one Set per entry, cached tail replacement -/
+def applyEnts (d : Durable) (c : Cache) (ents : List Entry) : Durable × Cache :=
+  match ents with
+  | [] => (d, c)
+  | e :: _ =>
+    let first := e.index
+    let m := c.logMeta
+    let m := if m.last < m.first ∨ first < m.first then { m with first := first } else m
+    let dEnts := if first ≤ m.last then d.entries.filter (fun (x : Entry) => x.index < first) else d.entries
+    let dEnts := ents.foldl (fun acc x => upsert x acc) dEnts
+    ({ d with entries := dEnts },
+     { c with logMeta := m, entries := replaceCached c.entries first ents })
+
+/-- `saveOp.apply`, tail: hard state key, `updateScopeWriteMeta`, meta key -/
+def applyFinish (d : Durable) (c : Cache) (hs : Hard) (persistHard : Bool) : Except Err (Durable × Cache) :=
+  let d := if persistHard then { d with hard := hs } else d
+  let c := { c with hard := hs }
+  match updateScopeWriteMeta c with
+  | none => .error .other
+  | some c => .ok ({ d with logMeta := some c.logMeta }, c)
+
 /-- `saveOp.apply`: the batch is returned as the new durable state -/
 def saveApply (d : Durable) (c : Cache) (r : SaveReq) : Except Err (Durable × Cache) :=
   let hs := match r.hs with
     | some h => h
     | none => c.hard
-  let persistHard := r.hs.isSome || r.snap.isSome
-  -- snapshot part
-  let step1 : Except Err (Durable × Cache × Hard × Nat) :=
-    match r.snap with
-    | none => .ok (d, c, hs, 0)
-    | some s =>
-      if s.index < c.snapIndex then .error .outOfDate
-      else if s.index = c.snapIndex ∧
-              (match c.manifest with
-               | some man => !manifestEquivalent man s
-               | none => false) = true ∧
-              (r.allowReplace = false ∨ s.index ≠ c.logMeta.applied) then .error .other
-      else
-        let dEnts := if s.index < maxU64 then d.entries.filter (fun e => ¬ e.index < s.index + 1) else []
-        let first := if s.index < maxU64 then s.index + 1 else maxU64
-        let hs := if hs.commit < s.index then { hs with commit := s.index } else hs
-        let d := { d with manifest := some s, entries := dEnts }
-        let c := { c with snapIndex := s.index, snapTerm := s.term, snapConf := s.conf,
-                          manifest := some s,
-                          entries := (c.entries.filter (fun e => ¬ e.index ≤ s.index)).map stripEntry,
-                          logMeta := { c.logMeta with first := first } }
-        .ok (d, c, hs, s.index)
-  match step1 with
-  | .error e => .error e
-  | .ok (d, c, hs, snapshotIndex) =>
-    let ents := if snapshotIndex > 0 then r.ents.filter (fun e => ¬ e.index ≤ snapshotIndex) else r.ents
-    let (d, c) := match ents with
-      | [] => (d, c)
-      | e :: _ =>
-        let first := e.index
-        let m := c.logMeta
-        let m := if m.last < m.first ∨ first < m.first then { m with first := first } else m
-        let dEnts := if first ≤ m.last then d.entries.filter (fun (x : Entry) => x.index < first) else d.entries
-        let dEnts := ents.foldl (fun acc x => upsert x acc) dEnts
-        ({ d with entries := dEnts },
-         { c with logMeta := m, entries := replaceCached c.entries first ents })
-    let d := if persistHard then { d with hard := hs } else d
-    let c := { c with hard := hs }
-    match updateScopeWriteMeta c with
-    | none => .error .other
-    | some c => .ok ({ d with logMeta := some c.logMeta }, c)
+  match r.snap with
+  | none =>
+    let (d, c) := applyEnts d c r.ents
+    applyFinish d c hs r.hs.isSome
+  | some s =>
+    match applySnap d c hs s r.allowReplace with
+    | .error e => .error e
+    | .ok (d, c, hs) =>
+      let ents := if s.index > 0 then r.ents.filter (fun e => ¬ e.index ≤ s.index) else r.ents
+      let (d, c) := applyEnts d c ents
+      applyFinish d c hs true
 
 /-- `flushWriteRequests` for one request: load state, apply, commit batch, publish cache -/
 def PStore.flush (p : PStore) (f : Durable → Cache → Except Err (Durable × Cache)) : Except Err PStore :=
@@ -295,5 +308,53 @@ def PStore.reads (p : PStore) : PStore × Reads :=
           ents := some (d.entriesGo 0 maxU64 0)
           termLo := lo
           terms := allOk ((List.range (hi + 1 - lo)).map (fun k => d.termGo (lo + k))) })
+
+/-! ### operations (what the driver executes and the theorems quantify over) -/
+
+inductive Op where
+  | save (hs : Option Hard) (snap : Option Snap) (ents : List Entry)
+  | repl (s : Snap)
+  | mark (i : Nat)
+  | cmark (i : Nat)
+  | reopen
+deriving Repr
+
+/-- the reference store; `none` = the reference refuses (only `repl`) -/
+def stepM? (m : RaftStore) : Op → Option RaftStore
+  | .save hs sn es => some (m.save hs sn es)
+  | .repl s => m.replaceSnapshot s
+  | .mark i => some (m.markApplied i)
+  | .cmark i => some (m.markConfApplied i)
+  | .reopen => some m
+
+def stepM (m : RaftStore) (op : Op) : RaftStore := (stepM? m op).getD m
+
+def stepP? (p : PStore) : Op → Except Err PStore
+  | .save hs sn es => p.save hs sn es
+  | .repl s => p.replaceSnapshot s
+  | .mark i => p.markApplied i
+  | .cmark i => p.markConfApplied i
+  | .reopen => .ok p.reopen
+
+/-- a failed mutation leaves the store as it was (one atomic Pebble batch) -/
+def stepP (p : PStore) (op : Op) : PStore :=
+  match stepP? p op with
+  | .ok p' => p'
+  | .error _ => p
+
+/-- Raft-valid operation in reference state `m` -/
+def validOp (m : RaftStore) : Op → Bool
+  | .save hs sn es => validSave m hs sn es
+  | .repl s => validReplace m s
+  | .mark _ => true
+  | .cmark _ => true
+  | .reopen => true
+
+def validRun : RaftStore → List Op → Bool
+  | _, [] => true
+  | m, op :: ops => validOp m op && validRun (stepM m op) ops
+
+def runM (m : RaftStore) (ops : List Op) : RaftStore := ops.foldl stepM m
+def runP (p : PStore) (ops : List Op) : PStore := ops.foldl stepP p
 
 end WK.C14
